@@ -5,6 +5,7 @@
 package xport
 
 import (
+	"bytes"
 	"errors"
 	"fmt"
 	"io"
@@ -274,4 +275,29 @@ var FaultKinds = []struct {
 	{"eof", io.EOF},
 	{"epipe", &net.OpError{Op: "write", Net: "tcp", Err: syscall.EPIPE}},
 	{"closed", net.ErrClosed},
+}
+
+// Arena places p in the middle of a larger buffer, as a message cut out of a receive buffer is: the returned view has
+// len(p) bytes and SPARE CAPACITY behind it (the bytes that follow it in the buffer - the next message), canaries on
+// both sides. intact reports "" while the view still holds p and the neighbours hold their canaries.
+func Arena(p []byte) (view []byte, intact func() string) {
+	const pad = 48
+	buf := make([]byte, pad+len(p)+pad)
+	for i := range buf {
+		buf[i] = byte(0xC3 ^ i*5)
+	}
+	copy(buf[pad:], p)
+	want := append([]byte(nil), buf...)
+	view = buf[pad : pad+len(p)] // cap(view) = len(p)+pad
+	return view, func() string {
+		switch {
+		case !bytes.Equal(buf[:pad], want[:pad]):
+			return "the bytes in front of the slice changed"
+		case !bytes.Equal(buf[pad+len(p):], want[pad+len(p):]):
+			return "the bytes that follow the slice in its buffer (its spare capacity) changed"
+		case !bytes.Equal(buf[pad:pad+len(p)], want[pad:pad+len(p)]):
+			return "the slice itself changed"
+		}
+		return ""
+	}
 }
